@@ -15,6 +15,7 @@ CLAIM = (
     "C++ wide/narrow strings and wide chars, C#, Java, TypeScript (quoted and template), Go."
     " LIT-KW: duplicate_curly_brackets / in_backticks / without_enclosing are passed to a literal function only inside "
     "transform_joined_str (a stand-alone literal emitted with them denotes another text)."
+    " LIT-KW also requires an explicit quoting= whenever a literal is emitted without its enclosing quotes."
 )
 NOTE = (
     "Trusted base: the per-language specification tables in sa/rules/chr.py (from the language references, DESIGN Appendix B) and the "
